@@ -1127,7 +1127,11 @@ CWRAPPER_OUTPUT_TYPE vecbasic_get(CVecBasic *self, size_t n, basic result)
 {
     CWRAPPER_BEGIN
 
-    SYMENGINE_ASSERT(n < self->m.size());
+    // the function reports errors through its return code: an index out of
+    // range must not reach the vector in builds without assertions
+    if (n >= self->m.size()) {
+        return SYMENGINE_RUNTIME_ERROR;
+    }
     basic_rcp(result) = self->m[n];
 
     CWRAPPER_END
@@ -1136,7 +1140,11 @@ CWRAPPER_OUTPUT_TYPE vecbasic_get(CVecBasic *self, size_t n, basic result)
 CWRAPPER_OUTPUT_TYPE vecbasic_set(CVecBasic *self, size_t n, const basic s)
 {
     CWRAPPER_BEGIN
-    SYMENGINE_ASSERT(n < self->m.size());
+    // the function reports errors through its return code: an index out of
+    // range must not reach the vector in builds without assertions
+    if (n >= self->m.size()) {
+        return SYMENGINE_RUNTIME_ERROR;
+    }
     self->m[n] = basic_rcp(s);
     CWRAPPER_END
 }
@@ -1144,7 +1152,11 @@ CWRAPPER_OUTPUT_TYPE vecbasic_set(CVecBasic *self, size_t n, const basic s)
 CWRAPPER_OUTPUT_TYPE vecbasic_erase(CVecBasic *self, size_t n)
 {
     CWRAPPER_BEGIN
-    SYMENGINE_ASSERT(n < self->m.size());
+    // the function reports errors through its return code: an index out of
+    // range must not reach the vector in builds without assertions
+    if (n >= self->m.size()) {
+        return SYMENGINE_RUNTIME_ERROR;
+    }
     self->m.erase(self->m.begin() + n);
     CWRAPPER_END
 }
